@@ -83,6 +83,13 @@ func (l *LW) proposal(kind, n, ty string, h int, content string) (govtypes.Conte
 	} else {
 		cs, cons = l.tssStates()
 	}
+	if content == "altroot" {
+		if tc, ok := cons.(*xibctmtypes.ConsensusState); ok {
+			c2 := *tc
+			c2.Root = []byte("another state root, 32 bytes long")[:32]
+			cons = &c2
+		}
+	}
 	if content == "wrongcons" {
 		if ty == "tm" {
 			_, cons = l.tssStates()
